@@ -55,6 +55,7 @@ def run(ctx, env):
     ctx.rule("R14.2", "call-graph dominator: every path from parse_bytes to {v9,ipfix}::FlowSetBody::parse and ipfix::FlowSet::parse passes through a map_res(take(..), ..) closure instance; all cache-writing functions lie below it")
     ctx.rule("R14.3", "every repetition combinator instance (many0/many1/…) reachable from parse_bytes applies streaming-mode parsers only under nom::combinator::complete")
     ctx.rule("R14.4", "a failing version parser maps to Partial{remaining: original bytes}; parse_bytes' Error is terminal and carries the dispatcher's input (C02 R2.1/R2.2 re-evaluated here)")
+    ctx.rule("R14.6", "the V9 flowset repetition finishes with a success value only when the input is empty or the announced count is reached: leftover bytes are never classified as padding by their content or length (a truncated flowset header must fail the packet)")
     ctx.rule("R14.5", "counted containers (V5/V7 flowsets, V9 template fields, options-template fields) are filled by nom count(..), never by many0/many_m_n")
     root = PARSE_ROOTS[0]
     if not roots_or_fail(ctx, prog, "R14.2", [root]):
@@ -78,6 +79,8 @@ def run(ctx, env):
                 ctx.ob("R14.1", path, "fixed-width-primitive:%s" % (s["fields"][0] if s["fields"] else "?"), bool(ok),
                        "atom parsed by %s — %s" % (term_s(t)[:100], "a fixed-width nom number primitive (Err/Incomplete on short input in either mode)" if ok else "NOT a plain fixed-width primitive (opt/cond/closure parsers can succeed on short input)"), site=s["site"])
     ctx.floor("R14.1", "crate", "V5/V7 wire atoms", n, 55)
+    from . import loopexit
+    loopexit.flowset_repetition_rule(ctx, prog, an, "R14.6")
     # R14.5 (includes V5/V7 count)
     for adt, field in COUNTED:
         path = c03.parse_be_path(adt)
